@@ -128,9 +128,13 @@ func runCheck(o *checkOpts) int {
 		cfg.Workers = o.workers
 		cfg.NoIfConvert = g.NoIfConv
 		cfg.LazyFork = g.LazyFork
+		cfg.Concretize = g.Concretize
+		cfg.WallS = 300
+		cfg.Progress = o.verbose
 		if thorough {
 			cfg.Witnesses = 64
 			cfg.MaxPaths = 4_000_000
+			cfg.WallS = 3000
 		}
 		for k, v := range g.Budget {
 			switch k {
@@ -144,6 +148,14 @@ func runCheck(o *checkOpts) int {
 				cfg.MaxConcretise = v
 			case "alloc":
 				cfg.MaxAlloc = v
+			case "wall_s":
+				if !thorough {
+					cfg.WallS = v
+				}
+			case "wall_s_thorough":
+				if thorough {
+					cfg.WallS = v
+				}
 			case "workers":
 				if v < cfg.Workers {
 					cfg.Workers = v
@@ -312,8 +324,8 @@ func declaredReachTags(gr *groupRun, harness string) []string {
 }
 
 func printResult(r *HarnessResult) {
-	fmt.Printf("== %s: paths=%d dead=%d forks=%d ifconv=%d concretised=%d steps=%d queries=%d (sat %d unsat %d unknown %d) solver=%.2fs wall=%.2fs\n",
-		r.Name, r.Paths, r.DeadPaths, r.Forks, r.IfConverted, r.Concretisations, r.Steps, r.Solver.Queries, r.Solver.Sat, r.Solver.Unsat, r.Solver.Unknown,
+	fmt.Printf("== %s: paths=%d dead=%d forks=%d modelhits=%d ifconv=%d concretised=%d steps=%d queries=%d (sat %d unsat %d unknown %d) solver=%.2fs wall=%.2fs\n",
+		r.Name, r.Paths, r.DeadPaths, r.Forks, r.ModelHits, r.IfConverted, r.Concretisations, r.Steps, r.Solver.Queries, r.Solver.Sat, r.Solver.Unsat, r.Solver.Unknown,
 		float64(r.Solver.SolverNS)/1e9, r.WallS)
 	var labels []string
 	for l := range r.Asserts {
